@@ -312,7 +312,74 @@ def interference(h):
 
 
 # ------------------------------------------------------------------------------------------------
+def sequential_faults():
+    """No racing needed: thread T1 owns a store, a later constructor call of T1 fails (open on a file that is not
+    NetCDF / does not exist); a second thread must still be refused afterwards."""
+    import os
+    import shutil
+    import tempfile
+    import threading
+    from AEIC.trajectories.store import TrajectoryStore
+    problems = []
+    tmp = tempfile.mkdtemp(prefix='c20s-', dir=os.environ.get('VERIF_SCRATCH'))
+    TrajectoryStore.active_in_thread = None
+    keep = {}
+    try:
+        bad = os.path.join(tmp, 'not-netcdf.nc')
+        with open(bad, 'wb') as f:
+            f.write(b'this is not a NetCDF file')
+
+        def t1():
+            keep['s1'] = TrajectoryStore.create(base_file=os.path.join(tmp, 'one.nc'))
+            for how in ('open', 'append'):
+                try:
+                    getattr(TrajectoryStore, how)(base_file=bad)
+                    keep['opened_bad'] = True
+                except Exception as e:   # noqa
+                    keep.setdefault('errors', []).append(type(e).__name__)
+            t1_done.set()
+            release.wait(60)          # stay alive: a finished thread's identifier may be reused by the next thread
+
+        def t2():
+            try:
+                keep['s2'] = TrajectoryStore.create(base_file=os.path.join(tmp, 'two.nc'))
+                keep['t2'] = 'created'
+            except Exception as e:   # noqa
+                keep['t2'] = 'refused: ' + type(e).__name__
+        t1_done, release = threading.Event(), threading.Event()
+        a = threading.Thread(target=t1)
+        a.start()
+        t1_done.wait(60)
+        b = threading.Thread(target=t2)
+        b.start()
+        b.join(60)
+        release.set()
+        a.join(60)
+        if keep.get('t2') == 'created':
+            problems.append(f'thread 1 owns an open store; after its failed open of an invalid file ({keep.get("errors")}) a second thread was allowed to create a store')
+        return problems
+    finally:
+        for k in ('s1', 's2'):
+            try:
+                keep[k].close()
+            except Exception:   # noqa
+                pass
+        TrajectoryStore.active_in_thread = None
+        shutil.rmtree(tmp, ignore_errors=True)
+
+
 def replay(payload):
+    r = replay_schedule(payload)
+    if r.get('reproduced'):
+        return r
+    seq = sequential_faults()
+    if seq:
+        return dict(reproduced=True, observed=seq, required='a thread that owns a store keeps the confinement whatever its later constructor calls do',
+                    schedule_replay=r)
+    return r
+
+
+def replay_schedule(payload):
     """Drive the schedule of the refuted obligation against the real constructor with a
     sys.settrace line scheduler: each thread is held before the line of its next atomic action
     until the schedule says it is its turn."""
